@@ -801,7 +801,7 @@ func genC18(r *simrt.Rand, tier string, idx uint64) *Plan {
 	dt := []int{50, 200, 1000, 5000}[r.Intn(4)]
 	p.Params["dialtimeout_ms"] = dt
 	p.Lists = [][]int{allTargets(nt)}
-	mode := idx % 7
+	mode := idx % 8
 	p.Params["mode"] = int(mode)
 	switch mode {
 	case 4: // swap: one target starts refusing while another, so far dead, recovers at about the same time
@@ -903,6 +903,24 @@ func genC18(r *simrt.Rand, tier string, idx uint64) *Plan {
 			// routing paused although a target may be live: callers go straight to the waiter table
 			p.Targets[0].Up = [][2]int{{0, 1}}
 			p.Clients = append(p.Clients, ClientPlan{Ops: []Op{{Kind: "fallback", N: (dt + 1000) * 1000}}})
+		}
+	case 7: // no target live; one comes up in the middle of a Fallback pause
+		dt = 5000
+		p.Params["dialtimeout_ms"] = dt
+		for i := range p.Targets {
+			p.Targets[i].Up = [][2]int{{0, 0}}
+		}
+		from := 200 + r.Intn(400)
+		length := 600 + r.Intn(900)
+		up := from + 100 + r.Intn(length-200)
+		p.Targets[r.Intn(nt)].Up = [][2]int{{0, 0}, {up, 1}}
+		p.Params["up_ms"], p.Params["fb_end_ms"] = up, from+length
+		p.Clients = append(p.Clients, ClientPlan{Ops: []Op{{Kind: "sleep", N: from * 1000}, {Kind: "fallback", N: length * 1000}}})
+		for c := 0; c < 2+r.Intn(5); c++ {
+			p.Clients = append(p.Clients, ClientPlan{Ops: []Op{{Kind: "sleep", N: r.Intn(from+length) * 1000}, {Kind: cForms[r.Intn(len(cForms))]}}})
+		}
+		for c := 0; c < 1+r.Intn(3); c++ {
+			p.Clients = append(p.Clients, ClientPlan{Ops: []Op{{Kind: "sleep", N: (from + length + 1200 + r.Intn(800)) * 1000}, {Kind: cForms[r.Intn(len(cForms))]}}})
 		}
 	case 6: // every target starts refusing at about the same time (refusals may be slow), later one recovers
 		for len(p.Targets) < 2 {
@@ -1084,6 +1102,27 @@ func checkC18(w *World, run *simrt.Run) {
 					w.Probe("call-after-close-failed-at-once")
 				}
 			}
+		}
+	case 7:
+		// the target came up inside the pause: once the pause is over it is in rotation; everybody
+		// whose DialTimeout allows it is served within the detection bound after that
+		rel := time.Duration(p.Params["fb_end_ms"]) * time.Millisecond
+		for _, r := range cs.results {
+			if !r.Returned {
+				continue
+			}
+			at := r.StartT
+			if at < rel {
+				at = rel
+			}
+			if r.StartT+dt <= at+bound {
+				continue
+			}
+			if r.Err != "" || r.EndT > at+bound {
+				w.Violate("C18.recovery", "target-recovered-during-fallback-not-used:"+r.Form, fmt.Sprintf("caller %d %s started %v; a target came up at %v inside a Fallback pause that ended at %v: returned %q at %v", r.Caller, r.Form, r.StartT, time.Duration(p.Params["up_ms"])*time.Millisecond, rel, r.Err, r.EndT))
+				break
+			}
+			w.Probe("served-after-recovery-inside-fallback")
 		}
 	case 6:
 		// one target is live again from back_ms on (the others stay away): once the detection bound
